@@ -109,8 +109,7 @@ type leaseBeh struct {
 }
 
 func startRaftStore() (*kv.RaftStore, func()) {
-	addr := nh.FreeAddr()
-	host, err := nh.New(addr, nil)
+	host, addr, err := nh.NewAuto(nil)
 	if err != nil {
 		die("%v", err)
 	}
